@@ -10,8 +10,8 @@ CHECKS = {
     text="Runs tcell's TParm on every parameterized string of the database over its parameter domain (exhaustive: cursor 0..299^2 quick / 0..1023^2 thorough, colour 0..255, RGB lattice quick / all 2^24 thorough) and on seeded well-formed programs of the terminfo(5) grammar, comparing each output with an independently written stack machine; random/truncated strings for robustness. Held = no disagreement on what was run.",
     note="Trusted: the tiref interpreter (cross-checked against ncurses tparm on integer-only programs in every run) and the terminfo(5) reading; programs where the reference reports a strict-mode fault are excluded."),
  "C02": dict(level="exploration", design="3/C02", technique="differential trace monitor on the real input parser (synchronous verif hook): one-read vs partitioned decoding, framing oracle, pipeline cross-check",
-    text="Feeds seeded token strings and random byte strings to tcell's real collectEventsFromInput for every database entry, in one read and under all (n<=10) or many partitions with no expiry in between, and requires identical event lists, zero leftover after expiry and no panic; state-free token strings must decode to the concatenation of their tokens; a sample goes through the real inputLoop/mainLoop/PollEvent path.",
-    note="Assumes expire=false on every chunk models 'no timeout in between'; the 50 ms timer itself is exercised only by C06. Sampled, not exhaustive, over strings."),
+    text="Feeds seeded token strings and random byte strings to tcell's real collectEventsFromInput for every database entry, in one read and under all (n<=10) or many partitions with no expiry in between, and requires identical event lists, zero leftover after expiry and no panic; state-free token strings must decode to the concatenation of their tokens; a sample goes through the real inputLoop/mainLoop/PollEvent path, and a sequence split across two reads is fed while the main loop is held up past the escape timer by a redraw on a slow tty.",
+    note="Assumes expire=false on every chunk models 'no timeout in between'; the 50 ms timer is exercised by the stalled-main-loop rounds (timing-compromised rounds discarded) and by C06. Sampled, not exhaustive, over strings."),
  "C03": dict(level="exploration", design="3/C03", technique="exhaustive enumeration of the key tables of all database entries through the real parser, against acceptance sets derived independently from the entry's field names and an independent xterm modifier encoder",
     text="Every Key* field of every entry, every control byte, DEL, lone ESC, the Alt prefix, every xterm modifier parameter 2..16 on cursor/editing/function keys, prefix-freedom of descriptions and built tables, ordered pairs (sampled in quick, all in thorough) and sampled triples.",
     note="Trusted: the mapping field name -> (key, modifiers) and the xterm modifier encoding written in the harness; triples are sampled."),
@@ -37,7 +37,7 @@ CHECKS = {
     text="All output of seeded draw histories on 45 entries goes through a strict tokenizer (numeric CSI parameters, terminated strings, no control bytes as payload, no % or $< residue); every must-blank rune via SetContent/SetCell/Fill at four columns in three locales must produce bytes identical to a blank's; every other swept rune's output must tokenize. Quick sweeps all must-blank runes and a stride of the rest, thorough every code point.",
     note="Generated content never contains % or $; must-blank is a lower bound; the tokenizer is the harness's own."),
  "C11": dict(level="exploration", design="3/C11", technique="round-trip monitor: harness encoder -> real parser (hook and real pipeline under back-pressure) -> rune events; exhaustive per charset",
-    text="Every Unicode scalar in UTF-8 and every round-tripping code point of 22 stateless legacy charsets, whole and split at every byte boundary; seeded strings under cuts; paste brackets and focus reports on all entries; text through the real inputLoop/mainLoop with a stalled poller.",
+    text="Every Unicode scalar in UTF-8 and every round-tripping code point of 22 stateless legacy charsets, whole and split at every byte boundary; seeded strings under cuts; paste brackets and focus reports on all entries; text through the real inputLoop/mainLoop with a stalled poller, trickling byte by byte (15 ms apart), and on real screens under each locale spelling (C.UTF-8, POSIX.UTF-8, modifiers).",
     note="x/text codecs define the charsets; ISO-2022-JP and HZ excluded by the statement."),
  "C12": dict(level="exploration", design="3/C12", technique="independent xterm mouse-protocol decoder vs the real parser; exhaustive code/coordinate sweeps, stateful sweeps and seeded histories",
     text="SGR codes 0..255 x finals x boundary coordinates on fresh state and after a press (with a following motion report); legacy X11 reports over all button bytes and a coordinate grid (thorough: all 224^2); 8-bit CSI in 8-bit and UTF-8 locales; seeded press/motion/wheel/release histories against a held-button model.",
@@ -55,16 +55,16 @@ CHECKS = {
     text="Seeded draw histories in UTF-8 and 9 legacy charsets with full-grid comparison of Runes/Style/Bytes after every Show/Sync, SetSize overlap + resize event, cursor query; InjectKey/InjectMouse batches and InjectKeyBytes of every character of each charset and of seeded strings ending in a multi-byte character, all delimited by a sentinel key so that no verdict depends on time.",
     note="Column covered by a wide rune is don't-care; queue bounded by design so batches <= 10 with a concurrent poller."),
  "C19": dict(level="exploration", design="3/C19", technique="js/wasm build of a monitor program run under Node with recording JavaScript stubs: shadow-model comparison of drawCell calls, callback table sweep, exhaustive lifecycle sequences with step-counted deadlock detection",
-    text="Compiles cmd/wasmchk for js/wasm against /repo (a compile error in tcell is the violation), then under Node: all 340 sequences over Suspend/Resume/SetSize/Fini up to length 4 with a Size() probe after each call (blocked = not finished after 2000 yields on the single thread); every WebKeyNames name x 16 modifier sets, mouse handlers x which x modifiers x 9 flag settings, paste/focus; seeded draw histories compared cell by cell and per-Show drawCell target sets.",
+    text="Compiles cmd/wasmchk for js/wasm against /repo (a compile error in tcell is the violation), then under Node: all 780 sequences over Suspend/Resume/SetSize(new)/SetSize(current)/Fini up to length 4 with a Size() probe after each call (blocked = not finished after 2000 yields on the single thread); every WebKeyNames name x 16 modifier sets, mouse handlers x which x modifiers x all ordered pairs of 9 flag settings, paste/focus; seeded draw histories compared cell by cell and per-Show drawCell target sets (thorough: 3000 histories over 16 Node processes).",
     note="The real DOM code of tcell.js is not executed; mouse expectations restricted to unambiguous cases."),
  "C06": dict(level="fault_enumeration", design="3/C06", technique="fault enumeration over queue fill levels, reader states and concurrent actors at shutdown, in worker child processes, with a structural goroutine-dump classifier (deadlock) and a draw step counter (livelock); seeded schedule controller at build-tagged schedule points",
-    text="Every event-queue fill 0..cap, every chunk-queue fill 0..cap with the main loop parked, reader parked on the send, reader held between Read and send by a gate, Read errors; x Fini / Suspend / Suspend-Resume-Fini; x none/poller/poster/Show loop/resize storm; plus seeded random schedules. Verdict per scenario: returned, or structural deadlock/livelock witness; post-conditions after Fini, Suspend and Resume.",
+    text="Every event-queue fill 0..cap, every chunk-queue fill 0..cap with the main loop parked, reader parked on the send, reader held between Read and send by a gate, Read errors; x Fini / Suspend / Suspend-Resume-Fini; x none/poller/poster/Show loop/resize storm/flood with a burst drainer; a lone ESC or a stalled redraw before the shutdown; thousands of tries of the race for the last queue slot (input path vs PostEvent, released through the lock-free queue-level hook); the real devTty on a pty under a SIGWINCH storm; plus seeded random schedules. Verdict per scenario: returned, or structural deadlock/livelock witness; post-conditions after Fini, Suspend and Resume.",
     note="Liveness restated as bounded progress with structural witnesses; watchdog expiry alone is inconclusive; one terminal entry (xterm-256color) - the shutdown path does not depend on the entry."),
  "C05": dict(level="exploration", design="3/C05", technique="recorded client-boundary histories with unique ids checked offline (exactly-once, FIFO, conservation of posts, timestamp bounds), porcupine linearizability of Post/Poll/HasPending against a capacity-agnostic FIFO model, under the Go race detector with schedule-point perturbation",
-    text="Feeder, 1-4 posters, resize storm and a poller in four modes (eager, slow, absent until both queues are full and longer than the escape timeout, bursty) on a real screen; every delivered event is matched against the id-carrying input stream and the posters' return values; When() bounds; HasPending-then-Poll; ChannelEvents order and closing.",
+    text="Feeder, 1-4 posters, resize storm and a poller in four modes (eager, slow, absent until both queues are full and longer than the escape timeout, bursty) on a real screen; every delivered event is matched against the id-carrying input stream and the posters' return values; When() bounds; HasPending-then-Poll, also asked thousands of times while the main loop is held up by a redraw on a slow tty with undecodable/incomplete/plain input waiting (verdict: the poller goroutine found parked inside PollEvent); mouse reports with wheel, extra-button, modifier and motion codes; ChannelEvents order and closing.",
     note="Resize events excluded (dropped on a full queue by design); a history in which the feeder itself paused > 20 ms inside a sequence is inconclusive for decoding; histories sampled."),
  "C10": dict(level="exploration", design="3/C10", technique="Go race detector (-race, halt_on_error=0, log files) over all pairs of Screen methods run concurrently with the library's own goroutines, in worker processes; report parsing and de-duplication by outermost tcell entry points; write-block contiguity and well-formedness on the reference terminal",
-    text="Every unordered pair (incl. self-pairs) of 37 Screen methods on a terminfo screen and of 36 on a SimulationScreen, two goroutines in tight loops (quick 150, thorough 4000 iterations) with the input feeder, resize notifier and event drain running, plus seeded sets of 3-5 methods; any DATA RACE report with a tcell frame, any panic or runtime fatal error, any write block ending inside a sequence or malformed output is a violation.",
+    text="Every unordered pair (incl. self-pairs) of 37 Screen methods on a terminfo screen and of 36 on a SimulationScreen, two goroutines in tight loops (quick 100, thorough 4000 iterations) on a styled 40x12 screen (one Sync > 4 KiB) with the input feeder, resize notifier and event drain running, plus seeded sets of 3-5 methods; any DATA RACE report with a tcell frame, any panic or runtime fatal error, any write block ending inside a sequence, malformed output, or the writes of one Show/Sync interleaved with a write of another goroutine is a violation. A race report counts against tcell when the racing access of both stacks is tcell's.",
     note="The detector sees only executed paths within its history window; lifecycle calls (Suspend/Resume, Fini) are not paired with each other; PollEvent and ChannelEvents never together."),
 }
 PENDING = {}
